@@ -288,6 +288,16 @@ func checkPremises(c *Ctx) {
 				if !nn.Sign && strings.HasSuffix(s, "#0 == 0)") && strings.Contains(s, "Source.Read") {
 					nz = true
 				}
+				// the other spellings of 'the count is positive'
+				if strings.Contains(s, "Source.Read") && nn.Cond.Op == "binop" && len(nn.Cond.Args) == 2 && strings.HasSuffix(nn.Cond.Args[0].String(), "#0") {
+					r := nn.Cond.Args[1]
+					switch {
+					case r.IsConst("0") && (nn.Cond.Name == "<=" && !nn.Sign || nn.Cond.Name == ">" && nn.Sign || nn.Cond.Name == "!=" && nn.Sign):
+						nz = true
+					case r.IsConst("1") && (nn.Cond.Name == "<" && !nn.Sign || nn.Cond.Name == ">=" && nn.Sign):
+						nz = true
+					}
+				}
 				if nn.Sign && strings.HasSuffix(s, "#1 == nil)") && strings.Contains(s, "Source.Read") {
 					ne = true
 				}
